@@ -49,12 +49,22 @@ def run_contract(ctx, n, with_model=True):
     from pyab_experiment.binning import binning
     rng = ctx.rng
     reqs, plan = [], []
-    for _ in range(n):
-        pop = population(rng)
-        npop = len(pop)
-        ws = weights_for(rng, npop)
-        cum = list(itertools.accumulate(ws))
-        h = rng.choice([0, 1, 2 ** 32 - 1, rng.randrange(2 ** 32), rng.randrange(2 ** 32)])
+    # fixed slice: totals of one, two and three ulps of the smallest subnormal at positions where `position * total` rounds up to the total itself
+    fixed = [(["A"], [5e-324], h) for h in (0, 2 ** 31 - 1, 2 ** 31, 3 * 2 ** 30, 2 ** 32 - 1)]
+    fixed += [(["A", "B"], [5e-324, 5e-324], h) for h in (2 ** 30, 2 ** 31, 3 * 2 ** 30, 3 * 2 ** 30 + 1, 2 ** 32 - 1)]
+    fixed += [(("A", "B", "C"), (5e-324, 5e-324, 5e-324), h) for h in (2 ** 31, 5 * 2 ** 29, 7 * 2 ** 29, 2 ** 32 - 1)]
+    fixed += [(["A", "B"], [2.2250738585072014e-308, 5e-324], 2 ** 32 - 1), (["A", "B"], [1e-310, 1e-310], 2 ** 32 - 1)]
+    for k in range(n + len(fixed)):
+        if k < len(fixed):
+            pop, ws, h = fixed[k]
+            npop = len(pop)
+            cum = list(itertools.accumulate(ws))
+        else:
+            pop = population(rng)
+            npop = len(pop)
+            ws = weights_for(rng, npop)
+            cum = list(itertools.accumulate(ws))
+            h = rng.choice([0, 1, 2 ** 32 - 1, rng.randrange(2 ** 32), rng.randrange(2 ** 32)])
         variants = [
             ("weights", dict(weights=ws), "ok"),
             ("cum", dict(cum_weights=cum), "ok"),
